@@ -522,6 +522,11 @@ def check_block_values(call, observed, impl, weighted, stable=None, name=""):
             if stable is not None and w is not None and not stable(v, w):
                 skipped += 1
                 continue
+            if np.isnan(v).any():
+                # NaN among the members: the unchanged code skips it for some reductions (sum, mean, max) and propagates it for
+                # others; the statement is about data values, so only the entry's existence and coordinates are judged
+                call.nan_member_entries = getattr(call, "nan_member_entries", 0) + 1
+                continue
             want = impl(v, w)
             tol = 64 * call.data_eps[c] * members.size * result_scale(name, v, want) + TINY
             got = float(observed[c][k])
